@@ -21,6 +21,7 @@ every list of peer messages (Byzantine ones included), over ABSTRACT threshold B
 import DosModel.Proofs.Query
 import DosModel.Props.C13
 import DosModel.Gen.DosnodeConsts
+import DosModel.Gen.QueryLoopFacts
 
 namespace Dos.Props.C01
 open Dos Dos.Content Dos.Query
@@ -40,6 +41,21 @@ theorem c01_stage_shape :
     Gen.recoverSignSteps = ["tbls.Recover(pubPoly,sign.Content)", "bls.Verify(pubPoly.Commit(),sign.Content)", "send:out", "return"]
     ∧ Gen.reportSteps = ["if:ok", "if:queryType==onchain.TrafficSystemRandom", "chain.UpdateRandomness", "chain.DataReturn", "if:err!=nil"] := by
   decide
+
+/-- regenerated: the request id is the SAME expression on the wire and in the registration.
+`handleQuery` puts `requestID.Bytes()` into every share message (`RequestId:`) with `Index: pType`,
+hands `requestID.Bytes()` and `d.reqSignc` to `dispatchSign`, which registers
+`string(requestID)` (its sixth parameter) with its own context and output channel; `queryLoop`
+looks a share up under `string(content.RequestId)` (`Props.C13.c13_code_shape`).  This is what
+`Request.ridBytes` stands for in `handleQuery` / `nodeRun` (own message, registration and the
+honest peers' messages all carry it).  Padding or re-encoding one of them only breaks this. -/
+theorem c01_request_id_shape :
+    Gen.QueryLoopFacts.wireRequestId = "requestID.Bytes()" ∧ Gen.QueryLoopFacts.wireIndex = "pType"
+    ∧ Gen.QueryLoopFacts.dispatchArg = "requestID.Bytes() via d.reqSignc"
+    ∧ Gen.QueryLoopFacts.dispatchParams = ["ctx", "submitterc", "signc", "reqSignc", "p", "requestID", "threshold", "logger"]
+    ∧ Gen.QueryLoopFacts.registeredRequestId = "string(requestID)"
+    ∧ Gen.QueryLoopFacts.registeredReply = "out" ∧ Gen.QueryLoopFacts.registeredCtx = "ctx" :=
+  ⟨rfl, rfl, rfl, rfl, rfl, rfl, rfl⟩
 
 /-- **1. only the derived submitter reports.**  Whatever reaches a member (any messages, any
 number of valid shares), it reports only if its id is `ids[(lastRand mod 2^64) mod n]`. -/
